@@ -6,7 +6,7 @@
   and only about its SECOND application (0-RTT: remembered parameters replaced by
   the handshake's): the first application replaces zeros.
 -/
-import AQ.Proofs.FlowInv2
+import AQ.Proofs.FlowAdvertise
 
 namespace AQ.Flow
 open AQ AQ.Stream AQ.RangeSet
@@ -188,6 +188,26 @@ theorem rxMaxStreams_rl (c : Conn) (uni : Bool) (v : Nat) : rlLe (rl c) (rl (rxM
     | (simp only []; rw [unblockStreams_rl]; refine ⟨Nat.le_refl _, ?_, ?_⟩ <;> simp [rl] <;> omega)
 
 /-- transport parameters: the three limits do not decrease iff `TP.monotone` -/
+theorem rxTransportParams_rl (c : Conn) (tp : TP) (h : tp.guarded c ∨ tp.monotone c) :
+    rlLe (rl c) (rl (rxTransportParams c tp).1) := by
+  have key : tp.monotone c → rlLe (rl c) (rl (transportParams c tp)) := by
+    intro hm
+    unfold TP.monotone at hm
+    unfold rlLe rl transportParams
+    obtain ⟨h1, h2, h3⟩ := hm
+    refine ⟨?_, ?_, ?_⟩
+    · cases hv : tp.maxData <;> simp; exact h1 _ hv
+    · cases hv : tp.maxStreamsBidi <;> simp; exact h2 _ hv
+    · cases hv : tp.maxStreamsUni <;> simp; exact h3 _ hv
+  rcases h with hg | hm
+  · rcases rxTransportParams_guarded hg with ⟨he, _⟩ | ⟨he, hr⟩
+    · rw [he]; exact rlLe.refl _
+    · rw [he]; exact key (TP.monotone_of_not_reduced hr)
+  · unfold rxTransportParams
+    split
+    · exact rlLe.refl _
+    · exact key hm
+
 theorem transportParams_rl_iff (c : Conn) (tp : TP) :
     rlLe (rl c) (rl (transportParams c tp)) ↔ tp.monotone c := by
   unfold TP.monotone rlLe rl transportParams
@@ -253,7 +273,7 @@ theorem run_rl_mono_wf (c : Conn) (ops : List Op) (hwf : WFRun c ops) : rlLe (rl
     by_cases ht : op.isTP = false
     · exact step_rl_mono c op ht
     · cases op <;> simp [Op.isTP] at ht
-      exact (transportParams_rl_iff c _).mpr hwf.1
+      exact rxTransportParams_rl c _ hwf.1
 
 /-! ## the hypothesis is only about a second application of transport parameters -/
 
@@ -313,9 +333,97 @@ theorem wfRun_single_handshake (c : Conn) (h0 : rl c = (0, 0, 0)) (pre post : Li
   · have hr := run_rl_eq c pre hpre
     rw [h0] at hr
     simp only [rl, Prod.mk.injEq] at hr
+    refine .inr ?_
     show tp.monotone (runState c pre)
     unfold TP.monotone
     rw [hr.1, hr.2.1, hr.2.2]
     exact ⟨fun _ _ => Nat.zero_le _, fun _ _ => Nat.zero_le _, fun _ _ => Nat.zero_le _⟩
+
+/-! ## accepted 0-RTT: the comparison with the remembered values is in the code -/
+
+theorem run_quirks (c : Conn) (hq : c.quirks.raiseBeforeWrite = false) (ops : List Op) :
+    (runState c ops).quirks = c.quirks := by
+  induction ops generalizing c with
+  | nil => rfl
+  | cons op ops ih =>
+    simp only [runState, List.foldl_cons]
+    have h1 := (step_adv c hq op .data).1
+    exact (ih _ (by rw [h1]; exact hq)).trans h1
+
+/-- every application of transport parameters in `ops` is a checked one (handshake
+    parameters of a server that accepted this client's early data) -/
+def AllTPChecked (ops : List Op) : Prop := ∀ tp, Op.transportParams tp ∈ ops → tp.checked = true
+
+/-- fixed code: when every application of transport parameters is a checked one,
+    the transport-parameter clause of `WFRun` holds by construction -/
+theorem wfRun_of_checked (c : Conn) (hq : c.quirks.raiseBeforeWrite = false ∧ c.quirks.acceptReducedParams = false)
+    (ops : List Op) (hd : WFRunD c ops) (h : AllTPChecked ops) : WFRun c ops := by
+  induction ops generalizing c with
+  | nil => trivial
+  | cons op ops ih =>
+    have hq' : (step c op).1.quirks = c.quirks := (step_adv c hq.1 op .data).1
+    refine ⟨?_, ih _ (by rw [hq']; exact hq) hd.2 (fun tp htp => h tp (List.mem_cons_of_mem _ htp))⟩
+    by_cases ht : op.isTP = false
+    · exact Op.wf_of_wfD hd.1 ht
+    · cases op <;> simp [Op.isTP] at ht
+      rename_i tp
+      exact .inl ⟨h tp List.mem_cons_self, hq.2⟩
+
+/-- A client that loads the remembered parameters when it connects (first
+    application, on limits that are still 0) and whose early data is accepted
+    (every later application is checked): the transport-parameter clause of `WFRun`
+    holds by construction, whatever the server's parameters are.  Also covers a
+    connection without resumption (`rest` without `transportParams`). -/
+theorem wfRun_resumed_accepted (c : Conn)
+    (hq : c.quirks.raiseBeforeWrite = false ∧ c.quirks.acceptReducedParams = false)
+    (h0 : rl c = (0, 0, 0)) (pre rest : List Op) (tp : TP)
+    (hpre : ∀ op ∈ pre, op.touchesRemote = false) (hrest : AllTPChecked rest)
+    (hd : WFRunD c (pre ++ .transportParams tp :: rest)) :
+    WFRun c (pre ++ .transportParams tp :: rest) := by
+  obtain ⟨hd1, hd2⟩ := WFRunD_append.mp hd
+  have hqp : (runState c pre).quirks = c.quirks := run_quirks c hq.1 pre
+  have hq1 : (step (runState c pre) (.transportParams tp)).1.quirks = c.quirks := by
+    rw [(step_adv _ (by rw [hqp]; exact hq.1) _ .data).1, hqp]
+  refine WFRun_append.mpr ⟨wfRun_of_noTP c pre hd1 ?_, ?_, wfRun_of_checked _ (by rw [hq1]; exact hq) rest hd2.2 hrest⟩
+  · intro op ho
+    have := hpre op ho
+    cases op <;> simp [Op.touchesRemote] at this <;> rfl
+  · have hr := run_rl_eq c pre hpre
+    rw [h0] at hr
+    simp only [rl, Prod.mk.injEq] at hr
+    refine .inr ?_
+    show tp.monotone (runState c pre)
+    unfold TP.monotone
+    rw [hr.1, hr.2.1, hr.2.2]
+    exact ⟨fun _ _ => Nat.zero_le _, fun _ _ => Nat.zero_le _, fun _ _ => Nat.zero_le _⟩
+
+/-- a checked application either refuses — PROTOCOL_VIOLATION, the state is
+    untouched, nothing is written — exactly when a parameter is below the remembered
+    value, or it assigns and NONE of the six limits has decreased -/
+theorem rxTransportParams_checked (c : Conn) (tp : TP) (hg : tp.guarded c) :
+    (tp.reduced c = true ∧ rxTransportParams c tp = (c, Out.connError PROTOCOL_VIOLATION)) ∨
+    (tp.reduced c = false ∧ (rxTransportParams c tp).2 = {} ∧
+      c.remoteMaxData ≤ (rxTransportParams c tp).1.remoteMaxData ∧
+      c.remoteMaxStreamDataBidiLocal ≤ (rxTransportParams c tp).1.remoteMaxStreamDataBidiLocal ∧
+      c.remoteMaxStreamDataBidiRemote ≤ (rxTransportParams c tp).1.remoteMaxStreamDataBidiRemote ∧
+      c.remoteMaxStreamDataUni ≤ (rxTransportParams c tp).1.remoteMaxStreamDataUni ∧
+      c.remoteMaxStreamsBidi ≤ (rxTransportParams c tp).1.remoteMaxStreamsBidi ∧
+      c.remoteMaxStreamsUni ≤ (rxTransportParams c tp).1.remoteMaxStreamsUni) := by
+  rcases rxTransportParams_guarded hg with ⟨he, hr⟩ | ⟨he, hr⟩
+  · exact .inl ⟨hr, he⟩
+  · right
+    rw [he]
+    refine ⟨hr, rfl, ?_⟩
+    unfold TP.reduced at hr
+    simp only [Bool.or_eq_false_iff, decide_eq_false_iff_not, Nat.not_lt] at hr
+    obtain ⟨⟨⟨⟨⟨h1, h2⟩, h3⟩, h4⟩, h5⟩, h6⟩ := hr
+    simp only [transportParams]
+    refine ⟨?_, ?_, ?_, ?_, ?_, ?_⟩
+    · cases hv : tp.maxData <;> simp [hv] at h1 ⊢ <;> omega
+    · cases hv : tp.maxStreamDataBidiLocal <;> simp [hv] at h2 ⊢ <;> omega
+    · cases hv : tp.maxStreamDataBidiRemote <;> simp [hv] at h3 ⊢ <;> omega
+    · cases hv : tp.maxStreamDataUni <;> simp [hv] at h4 ⊢ <;> omega
+    · cases hv : tp.maxStreamsBidi <;> simp [hv] at h5 ⊢ <;> omega
+    · cases hv : tp.maxStreamsUni <;> simp [hv] at h6 ⊢ <;> omega
 
 end AQ.Flow
